@@ -751,6 +751,15 @@ def _parse_oracle(kind: str, buf: bytes) -> str:
         return "!error"
 
 
+def octet_variants(doc: bytes) -> list[tuple[str, bytes]]:
+    """The same document with other OCTETS around / inside it that the reader tolerates (it starts at `<KSR`): a UTF-8 byte
+    order mark, CR LF line ends, leading blank line / comment / declaration, trailing blank lines.  The digest shown is of the
+    octets of the FILE, whatever a reader skips."""
+    bom = b"\xef\xbb\xbf"
+    return [("bom", bom + doc), ("bom-crlf", bom + doc.replace(b"\n", b"\r\n")), ("crlf", doc.replace(b"\n", b"\r\n")), ("leading-newline", b"\n" + doc),
+            ("leading-comment", b"<!-- generated -->\n" + doc), ("leading-declaration", b'<?xml version="1.0" encoding="UTF-8"?>\n' + doc), ("trailing-blank-lines", doc + b"\n\n\n")]
+
+
 def stream_schedule(res: Result, tier: str, driver_ok: bool, ref: list[tuple[str, str]]) -> None:
     r = lib.rng("C17:schedule")
     base = {"ksr": KSR_FILE.read_bytes(), "skr": SKR_FILE.read_bytes()}
@@ -782,6 +791,7 @@ def stream_schedule(res: Result, tier: str, driver_ok: bool, ref: list[tuple[str
         scheds.append(("empty-at-read", [v[0], v[0], b"", v[1]]))
         scheds.append(("malformed-except-read", [b"garbage", b"x", v[5], b"garbage"]))
         scheds.append(("trailing-whitespace", [v[0], v[0], b"\n \n" + v[1] + b"\n\n  ", v[2]]))
+        scheds += [("stable-octets:" + vt, [data]) for vt, data in octet_variants(v[0])]
         scheds.append(("log-contents:every-op-differs", [v[0], v[1], v[2], v[3], v[4]]))
         scheds.append(("log-contents:replaced-after-read", [v[0], v[0], v[0], v[1], v[2]]))
         for k in range(6 if tier == "quick" else 40):
@@ -993,6 +1003,7 @@ def stream_entry(res: Result, tier: str, driver_ok: bool, ref: list[tuple[str, s
     v = [with_id(base, f"entry-{i}") for i in range(5)]
     config = _entry_config()
     scheds = [("stable", [v[0]]), ("every-op-differs", v), ("replaced-after-read", [v[0], v[0], v[0], v[1], v[2], v[3]]), ("replaced-before-read", [v[0], v[1], v[2], v[2]])]
+    scheds += [("stable-octets:" + vt, [data]) for vt, data in octet_variants(v[0])]
     cases = [_entry_run(tag, contents, config) for tag, contents in scheds]
     lines = [_entry_line(c) for c in cases]
     model = run_driver(lines, exe=DRIVER) if driver_ok else [None] * len(lines)
